@@ -1,8 +1,14 @@
 """C16 — see DESIGN.md §4."""
-from ..spec import run_specs
+from ..spec import run_specs, k1_pairing, size_vs_write, extract
+from ..specs_registry import SPECS
 
 EXPLANATION = 'Per write Range/Location variant and encoding: emitted sequences equal the reviewed table; validity error exits present on the stated edges. Value equality after reading back is NOT decided.'
 
+S = {s['id']: s for s in SPECS}
+
 
 def run(rep, ctx):
+    g = ctx.g
     run_specs(rep, ctx, 'C16')
+    k1_pairing(rep, g, 'K1-rle', S['w_rnglists'], [S['rle_parse']], 'DW_RLE_')
+    k1_pairing(rep, g, 'K1-lle', S['w_loclists'], [S['lle_parse']], 'DW_LLE_')
